@@ -153,6 +153,99 @@ def job_xilinx(modname, clsname, ckw, win, nout, margin, tag):
                      cfg=dict(cls=clsname, ctor=ckw, window=win, outputs=nout, margin=margin), replay_dir=rdir(), max_paths=300000)
 
 
+def job_uspmmcm(ckw, win, nout, margin, tag):
+    """USPMMCM has its own compute_config with literal range(16, 1025) lists (x/8) for the feedback multiplier and the CLKOUT0 divider and
+    math.isclose as margin test. win = dict(divclk=(lo, n), mult8=(lo8, n), div0_8=(lo8, n), div=(lo, n)); the literal ranges are windowed by
+    replacing the module's `range` (first (16, 1025) call = multiplier list, later ones = CLKOUT0 divider list)."""
+    stubs()
+    import builtins as _b, math as _m
+    from migen import Signal
+    from litex.soc.cores.clock import xilinx_usp
+    calls = [0]
+    (m8, mw), (d8, dw8) = win["mult8"], win["div0_8"]
+
+    def win_range(*a):
+        if a == (16, 1025):
+            calls[0] += 1
+            return _b.range(m8, m8 + mw) if calls[0] == 1 else _b.range(d8, d8 + dw8)
+        return _b.range(*a)
+
+    class Math:
+        def __getattr__(self, n):
+            return getattr(_m, n)
+
+        @staticmethod
+        def isclose(a, b, rel_tol=1e-9, abs_tol=0.0):
+            if isinstance(a, Sym) or isinstance(b, Sym):
+                d = abs(a - b)
+                return bool(OR(d <= a * Fraction(rel_tol), d <= b * Fraction(rel_tol)))
+            return _m.isclose(a, b, rel_tol=rel_tol, abs_tol=abs_tol)
+    xilinx_usp.range = win_range
+    xilinx_usp.math = Math()
+
+    def near(r, f, slack, strict):
+        tol_f, tol_r = f * (Fraction(margin) + slack), r * (Fraction(margin) + slack)
+        d1, d2 = AND(r - f <= tol_f, f - r <= tol_f), AND(r - f <= tol_r, f - r <= tol_r)
+        return AND(d1, d2) if strict else OR(d1, d2)
+
+    def body(ctx):
+        calls[0] = 0
+        pll = xilinx_usp.USPMMCM(**ckw)
+        n0, nw = win["divclk"]
+        d0, dw = win["div"]
+        pll.divclk_divide_range = (n0, n0 + nw)
+        pll.clkout_divide_range = (d0, d0 + dw)
+        cmin, cmax = getattr(pll, "clkin_freq_range", (10e6, 800e6))
+        clkin = ctx.real("clkin", Fraction(cmin), Fraction(cmax))
+        pll.clkin = Signal()
+        pll.clkin_freq = clkin
+        fs_ = []
+        for i in range(nout):
+            f = ctx.real("f%d" % i, Fraction(1e6), Fraction(1000e6))
+            fs_.append(f)
+            pll.clkouts[i] = (Signal(), f, 0, ctx.exact(margin))
+        pll.nclkouts = nout
+        vmin, vmax = pll.vco_freq_range
+        vm = pll.vco_margin
+        ns = list(range(n0, n0 + nw))
+        ms = [Fraction(x, 8) for x in range(m8, m8 + mw)]
+        dlists = [[Fraction(x, 8) for x in range(d8, d8 + dw8)]] + [[Fraction(d) for d in range(d0, d0 + dw)] for _ in range(nout - 1)]
+
+        def spec(n, m, ds, slack, strict):
+            vco = clkin * m / n
+            c = [vco >= Fraction(vmin) * (1 + Fraction(vm)) * (1 - slack), vco <= Fraction(vmax) * (1 - Fraction(vm)) * (1 + slack)]
+            for f, d in zip(fs_, ds):
+                c.append(near(vco / d, f, slack, strict))
+            return AND(*c)
+        try:
+            cfg = pll.compute_config()
+        except ValueError:
+            ctx.event("refused")
+            anyok = [spec(n, m, ds, -SL, True) for n in ns for m in ms for ds in itertools.product(*dlists)]
+            return dict(refused_only_if_no_setting_in_window=NOT(OR(*anyok)))
+        ctx.event("configured")
+        n, m = cfg["divclk_divide"], cfg["clkfbout_mult"]
+        ds = [cfg["clkout%d_divide" % i] for i in range(nout)]
+        inr = (n in ns) and (Fraction(m) in ms) and all(Fraction(d) in dl for d, dl in zip(ds, dlists))
+        res = dict(dividers_inside_ranges=inr, outputs_within_margin_and_vco_in_range=spec(n, Fraction(m), [Fraction(d) for d in ds], SL, False))
+        try:
+            calls[0] = 0
+            pll.finalize()
+            p = pll.params
+            same = (p.get("p_CLKFBOUT_MULT_F") == m) and (p.get("p_DIVCLK_DIVIDE") == n) and (p.get("p_CLKOUT0_DIVIDE_F") == ds[0])
+            for i in range(1, nout):
+                same = same and (p.get("p_CLKOUT%d_DIVIDE" % i) == ds[i])
+            res["instance_parameters_equal_config"] = same
+        except Exception as e:
+            if isinstance(e, (pysym.Unsupported,)):
+                raise
+            res["instance_parameters_equal_config"] = False
+        return res
+    checks = ["dividers_inside_ranges", "outputs_within_margin_and_vco_in_range", "instance_parameters_equal_config", "refused_only_if_no_setting_in_window"]
+    return run_pysym("uspmmcm_%s" % tag, body, checks, required_events=["configured", "refused"], funcs=FUNCS + ["litex.soc.cores.clock.xilinx_usp.USPMMCM.compute_config", "litex.soc.cores.clock.xilinx_usp.USPMMCM.do_finalize"],
+                     cfg=dict(cls="USPMMCM", ctor=ckw, window=win, outputs=nout, margin=margin), replay_dir=rdir(), max_paths=300000)
+
+
 def job_ice40(win, margin, tag):
     stubs()
     from migen import Signal
@@ -264,11 +357,13 @@ def jobs(tier):
             ("xilinx_s7", "S7MMCM", dict(speedgrade=-2), dict(divclk=(1, 3), mult=(4, 3), div=(2, 3), div0=(2, 4, Fraction(1, 8))), 2, 1e-2, "mid_2out"),
             ("xilinx_us", "USPLL", dict(speedgrade=-1), dict(divclk=(1, 2), mult=(2, 3), div=(1, 3)), 2, 1e-2, "low_2out"),
             ("xilinx_us", "USMMCM", dict(speedgrade=-2), dict(divclk=(1, 2), mult=(2, 3), div=(1, 3), div0=(1, 3, Fraction(1, 8))), 2, 0, "low_2out_margin0"),
-            ("xilinx_usp", "USPMMCM", dict(speedgrade=-1), dict(divclk=(1, 2), mult=(2, 3), div=(1, 3), div0=(1, 3, Fraction(1, 8))), 1, 1e-2, "low_1out"),
             ("xilinx_s6", "S6PLL", dict(speedgrade=-2), dict(divclk=(1, 2), mult=(2, 3), div=(1, 3)), 2, 1e-2, "low_2out"),
         ]
     for (modn, cls, ckw, win, nout, mg, tag) in X:
         js.append(Job("%s_%s" % (cls.lower(), tag), job_xilinx, dict(modname=modn, clsname=cls, ckw=ckw, win=win, nout=nout, margin=mg, tag=tag), cost=20 * nout * nout, timeout_s=7000))
+    if T:
+        js.append(Job("uspmmcm_low_1out", job_uspmmcm, dict(ckw=dict(speedgrade=-1), win=dict(divclk=(1, 2), mult8=(16, 3), div0_8=(16, 3), div=(1, 2)), nout=1, margin=1e-2, tag="low_1out"), cost=30, timeout_s=7000))
+        js.append(Job("uspmmcm_mid_2out", job_uspmmcm, dict(ckw=dict(speedgrade=-2), win=dict(divclk=(1, 2), mult8=(81, 2), div0_8=(40, 3), div=(4, 2)), nout=2, margin=1e-3, tag="mid_2out"), cost=100, timeout_s=7000))
     js.append(Job("ice40pll_low", job_ice40, dict(win=dict(divr=(0, 2), divf=(0, 3), divq=(1, 3)), margin=1e-2, tag="low"), cost=5))
     js.append(Job("ice40pll_high", job_ice40, dict(win=dict(divr=(14, 2), divf=(125, 3), divq=(4, 3)), margin=1e-2, tag="high"), cost=5))
     js.append(Job("ecp5pll_low_1out", job_ecp5, dict(win=dict(clki_div=(1, 2), clko_div=(1, 3), clkfb_div=(1, 2)), nout=1, margin=1e-2, tag="low_1out"), cost=20, timeout_s=7000))
